@@ -248,10 +248,11 @@ class Runner:
             raise Violation(PROP, "wrong-exception:" + type(res.exc).__name__, self.where,
                             "pooled calculate raised %r, which the injector did not raise (%d injected)"
                             % (res.exc, len(inj.raised)))
-        if set(inj.consulted) != expected or inj.calls != len(inj.consulted):
+        # a chunk must not go on past its own raise; stopping other chunks EARLIER is allowed
+        if not set(inj.consulted) <= expected or inj.calls != len(inj.consulted):
             raise Violation(PROP, "continued-after-interrupt", self.where,
-                            "chunks %r, raises at %r: consulted %r, expected %r (each chunk stops at its first raise)"
-                            % (layout, sorted(at), sorted(inj.consulted), sorted(expected)))
+                            "chunks %r, raises at %r: consulted %r, but only %r can be reached when each chunk stops at "
+                            "its first raise" % (layout, sorted(at), sorted(inj.consulted), sorted(expected)))
         first_of_chunk = {c[0] for c in layout if c}
         if any(n in first_of_chunk for n in at):
             self.count("probe_interrupt_first_task_of_chunk")
